@@ -48,8 +48,11 @@ def expected_trace(c, v, t=None):
                     continue
                 if hasattr(x, a):
                     rec(getattr(x, a))
+        elif n in by and type(x) is c.model.classes[n]:
+            out.extend(chain(by, registered, n))        # enums and string-likes are savorized too
         elif isinstance(x, dict):
             for k, a in x.items():
+                rec(k)
                 rec(a)
         elif isinstance(x, (list, tuple)):
             for a in x:
@@ -74,7 +77,24 @@ def repeated_keys(c):
         if isinstance(n, yaml.SequenceNode):
             return any(walk(x) for x in n.value)
         return False
-    return c.node is not None and walk(c.node)
+    if c.node is not None and walk(c.node):
+        return True
+    # a string-like key class whose savorize hook rewrites the key: different keys may collapse
+    rewriting = {x['name'] for x in c.spec if x['kind'] in ('str', 'userstring', 'yatimlstring')
+                 and any(op[0] == 'replace' for op in (x.get('savorize') or []))}
+
+    def keyed(t):
+        if t is None:
+            return False
+        if t[0] == 'map':
+            return (t[2][0] == 'cls' and t[2][1] in rewriting) or keyed(t[3])
+        if t[0] == 'seq':
+            return keyed(t[2])
+        if t[0] == 'union':
+            return any(keyed(m) for m in t[1])
+        return False
+    return bool(rewriting) and (keyed(c.doc_type) or any(
+        keyed(p.get('type')) for x in c.spec for p in x.get('params', [])))
 
 
 def explore(ctx):
@@ -170,7 +190,7 @@ def explore_sweeten(ctx):
     target = ctx.budget(300, 6000)
     while made < target and attempts < target * 5:
         attempts += 1
-        spec, cands = G.gen_model(rng, features={'sweeten'})
+        spec, cands = G.gen_model(rng, features={'sweeten', 'mixins'} if attempts % 2 else {'sweeten'})
         if not any(c.get('sweeten') is not None for c in spec):
             continue
         try:
